@@ -111,8 +111,11 @@ def sop_operands(rng, T):
         b[-1] = (-s) * pow(a[-1], -1, q) % q
         return 'sum=0-mod-q', a, b
     if c < 0.4:
-        a = [q - 1 - rng.randrange(0, 3) for _ in range(T)]
-        b = [q - 1 - rng.randrange(0, 3) for _ in range(T)]
+        # all operands within 1% of q (the accumulator can then exceed 2^256 + q before the last fold, depending on the
+        # Montgomery quotient): offsets of every magnitude, so that the quotient varies from case to case
+        k = rng.choice([2, 8, 16, 64, 128, 200, 240, 248])
+        a = [q - 1 - rng.randrange(0, 1 << k) for _ in range(T)]
+        b = [q - 1 - rng.randrange(0, 1 << k) for _ in range(T)]
         return 'all-near-p', a, b
     if c < 0.6:
         a = [stored_value(rng, q)[1] for _ in range(T)]
@@ -799,6 +802,9 @@ def gen_C01(rng, n):
     for e in ['pairing', 'fast', 'prep']:
         A = pt_mul(K1, rng.randrange(1, r), P1); Bq = pt_mul(K2, rng.randrange(1, r), P2)
         out.append((f'law.additive2:{e}:equal-reps', f'law.additive2@{e} {rep(rng, K1, A, "z=lambda")[1]} {rep(rng, K1, A, "z=1")[1]} {rep(rng, K2, Bq, "z=1")[1]} {rep(rng, K2, Bq, "z=lambda")[1]}'))
+    # one prepared value queried with P, -P, 2P and P again (state inside the prepared value)
+    for _ in range(max(1, n // 4)):
+        out.append(('law.prepreuse', f'law.prepreuse {h32(rng.randrange(1, r))} {h32(rng.randrange(1, r))}'))
     for e in ['pairing', 'fast', 'prep']:
         out.append((f'law.identity:{e}', f'law.identity@{e} {rep(rng, K1, None)[1]} {rep(rng, K2, None)[1]}'))
         out.append((f'law.nondegenerate:{e}', f'law.nondegenerate@{e}'))
